@@ -600,6 +600,13 @@ inline Val jsonImage(const Val& v, bool useDouble, bool* rawOk = nullptr, bool k
   }
 }
 
+// relative tolerance of looselyEqual(): 1e-6 is the loosest accuracy the properties state; builds
+// without doubles parse in float arithmetic and get 1e-5 (accuracy is C12's business, not a claim here)
+inline double& looseTolerance() {
+  static double t = 1e-6;
+  return t;
+}
+
 // equality up to the loosest float accuracy the properties state (1e-6 * max(1,|x|));
 // integral-valued floats may come back as integers and vice versa.
 inline bool looselyEqual(const Val& x, const Val& y, std::string* why = nullptr, const std::string& path = "$") {
@@ -618,7 +625,7 @@ inline bool looselyEqual(const Val& x, const Val& y, std::string* why = nullptr,
     double a = x.asDouble(), b = y.asDouble();
     if (a == b || (a != a && b != b))
       return true;
-    double tol = 1e-6 * std::max(1.0, fabs(a));
+    double tol = looseTolerance() * std::max(1.0, fabs(a));
     if (fabs(a - b) <= tol)
       return true;
     return say("number " + toText(x) + " vs " + toText(y));
